@@ -125,6 +125,11 @@ pub struct Case {
     pub max_hostile: u8,
     /// responder-only probes: (kind, slice, shred, known block?, sender in range?)
     pub probes: Vec<(u8, u16, u8, bool, bool)>,
+    /// how the responder came to hold the block: 0 = dissemination only; 1 = a few shreds were
+    /// filed through repair first (incomplete), then dissemination completed the block; 2 = repair
+    /// only; 3 = dissemination delivered part of every slice, repair the rest
+    #[serde(default)]
+    pub responder_history: u8,
 }
 
 pub struct C14;
@@ -181,8 +186,8 @@ impl Property for C14 {
             2 => Just(Reaction::LeaderSignedOtherFlag),
             2 => Just(Reaction::LeaderSignedOtherData),
         ];
-        (block, prop::collection::vec(reaction, 1..40), 0u8..=3, prop::collection::vec((0u8..3, prop_oneof![4 => 0u16..4, 1 => 0u16..1024], 0u8..64, prop::bool::weighted(0.8), prop::bool::weighted(0.85)), 0..8))
-            .prop_map(|(block, script, max_hostile, probes)| Case { block, script, max_hostile, probes })
+        (block, prop::collection::vec(reaction, 1..40), 0u8..=3, prop::collection::vec((0u8..3, prop_oneof![4 => 0u16..4, 1 => 0u16..1024], 0u8..64, prop::bool::weighted(0.8), prop::bool::weighted(0.85)), 0..8), prop_oneof![3 => Just(0u8), 2 => Just(1u8), 1 => Just(2u8), 1 => Just(3u8)])
+            .prop_map(|(block, script, max_hostile, probes, responder_history)| Case { block, script, max_hostile, probes, responder_history })
             .boxed()
     }
     fn run(&self, case: &Case) -> Outcome {
@@ -238,10 +243,60 @@ async fn run(case: &Case) -> Outcome {
     // --- responder node (validator 1) holds the block
     let (resp_events_tx, _resp_events) = tokio::sync::mpsc::channel(4096);
     let mut resp_store = alpenglow::consensus::BlockstoreImpl::new(resp_events_tx);
-    for bs in &built.slices {
-        for s in &bs.shreds {
-            let _ = resp_store.add_shred_from_dissemination(s.clone()).await;
+    out.label(format!("responder-history={}", case.responder_history % 4));
+    match case.responder_history % 4 {
+        0 => {
+            for bs in &built.slices {
+                for s in &bs.shreds {
+                    let _ = resp_store.add_shred_from_dissemination(s.clone()).await;
+                }
+            }
         }
+        1 => {
+            for (i, bs) in built.slices.iter().enumerate() {
+                for s in bs.shreds.iter().take(1 + i) {
+                    let _ = resp_store.add_shred_from_repair(h.clone(), s.clone()).await;
+                }
+            }
+            for bs in &built.slices {
+                for s in &bs.shreds {
+                    let _ = resp_store.add_shred_from_dissemination(s.clone()).await;
+                }
+            }
+        }
+        2 => {
+            for bs in &built.slices {
+                for s in &bs.shreds {
+                    let _ = resp_store.add_shred_from_repair(h.clone(), s.clone()).await;
+                }
+            }
+        }
+        _ => {
+            for bs in &built.slices {
+                for s in bs.shreds.iter().take(20) {
+                    let _ = resp_store.add_shred_from_dissemination(s.clone()).await;
+                }
+            }
+            for bs in &built.slices {
+                for s in bs.shreds.iter().skip(20) {
+                    let _ = resp_store.add_shred_from_repair(h.clone(), s.clone()).await;
+                }
+            }
+        }
+    }
+    if resp_store.get_block(&id).is_none() {
+        if case.responder_history % 4 == 3 {
+            // split between the two paths: neither path alone delivered a decodable slice, the
+            // statement does not say that such a node holds the block
+            out.label("responder-does-not-hold-block");
+            return out;
+        }
+        // every shred of every slice arrived through one path: the node holds the block
+        out.violate(
+            "C14/responder/complete-block-not-served",
+            format!("responder history {}: all 64 shreds of each of the {k} slices were stored, get_block((slot {}, H)) finds nothing", case.responder_history % 4, case.block.slot),
+        );
+        return out;
     }
     let resp_store: alpenglow::consensus::SharedBlockstore = Arc::new(RwLock::new(resp_store));
     let (resp_net, mut resp_out, resp_in) = chan_net::<RepairResponse, RepairRequest>();
